@@ -54,7 +54,9 @@ def make_exc(spec):
 
 
 def exc_type_name(spec):
-  return 'OSError' if spec.startswith('OSError:') else spec
+  if spec.startswith('OSError:'):
+    return type(make_exc(spec)).__name__     # e.g. EACCES -> PermissionError
+  return spec
 
 
 # ---------------------------------------------------------------------------
